@@ -344,6 +344,8 @@ void exec_api_op(Task &t, const Op &op, OpResult &r) {
             return rr;
         };
         ret = vstep(call, v, 0);
+        r.raw = ret;
+        r.raw_set = true;
         if (viastdout) stdout = save;
         if (s) {
             int e = errno;
@@ -451,6 +453,7 @@ void exec_api_op(Task &t, const Op &op, OpResult &r) {
     }
     default: break;
     }
+    if (!r.raw_set) r.raw = ret;
     r.ret = ret;
 }
 
